@@ -138,6 +138,106 @@ CHECKS = {
         technique="Coq proof of the proto->IR->proto round trip over a field-level proto model; vm_compute correspondence with serde",
         design_ref="§6 C02, §10"),
     "C03": dict(
+        level="proof",
+        text="C03_iso is a closed theorem for whole models: for every IR state with serializable_tm (boolean, non-vacuous: leaf "
+             "table sane and unfolding well formed — no dangling/duplicated/empty value names per scope), ser succeeds, deser of "
+             "the result succeeds, the unfolding of the result (every value occurrence replaced by (scope depth, index among the "
+             "values the scope defines) from object identity; names, payloads, op ids, tensors, node order kept) equals the "
+             "original's, and the result satisfies the use-def/ownership invariant — covering nested graphs with captured "
+             "outer-scope values, unsorted node order, optional inputs, empty-named outputs, initializers and model-local "
+             "functions. Also proved: serialization is read-only except aligning initializer tensor names "
+             "(C03_ser_readonly), a second to_proto returns the same proto (C03_ser_twice_equal), ser(deser(ser h)) = ser h "
+             "(C03_ser_deser_ser), determinism. Tie: IR models built through the public API incl. edit histories, several "
+             "tensor implementations, functions, device configurations; to_proto / from_proto(to_proto) observations and the "
+             "theorem's statement are evaluated inside Coq per case; independent Python isomorphism oracle, accessor "
+             "snapshot before/after to_proto, serialize-twice comparison.",
+        note=TRUST + "Leaf payloads (tensor bytes, types/shapes, plain attributes, metadata, device configurations) are opaque "
+             "tokens computed by the library's own leaf (de)serializers (C02/C04); protobuf itself; Python recursion limit. "
+             "Documented deviation kept as hypothesis: a non-input initializer gets type/shape filled from its tensor.",
+        technique="Coq proof of the IR->proto->IR isomorphism (equality of unfoldings) + read-only/twice-equal; vm_compute correspondence",
+        design_ref="§6 C03, §10"),
+    "C05": dict(
+        level="translation_validation",
+        text="A term language for models (nested subgraphs, functions, initializers) with a denotational semantics over "
+             "UNINTERPRETED operators (interp is a Section variable constrained only by what the passes rely on) and executable "
+             "models of 15 passes. Proved in Coq for every interp/environment (closed): a generic simulation theorem "
+             "(replace-uses, remove-dead, eliminate-identity, lift-constant), semantics + signature preservation of "
+             "IdentityElimination, both initializer deduplication passes, LiftConstantsToInitializers, TopologicalSort "
+             "(as a relation), and of any sequence of identity elimination / dedup / DCE; DCE and one CSE merge step are "
+             "partial; the BatchNormalization training_mode defect is refuted with a witness (known finding). NOT proved: CSE "
+             "as a whole, OutputFix, LiftSubgraphInitializers, Add/RemoveInitializersFromInputs, RemoveUnusedFunctions "
+             "(modelled, compared structurally), Inline and AddDefaultAttributes (oracle only) — hence translation validation: "
+             "the real pass output, converted to terms, must agree with the model pass inside Coq on generated valid models "
+             "and pass sequences, and the oracle executes before/after with onnx.reference / onnxruntime (bitwise, NaN-aware), "
+             "checks the I/O signature and runs onnx.checker. The CSE non-deterministic operator set is regenerated from source.",
+        note=TRUST + "Modelled, not verified: real operator semantics (uninterpreted), onnx.checker beyond the structural Valid, "
+             "shape inference, schemas (optional outputs, default attributes). NameFix/ClearMetadata/ShapeInference/"
+             "RemoveUnusedOpsets: frame check only (names and metadata are outside the term language).",
+        technique="Coq simulation proofs for 5 passes + per-case Coq comparison of real pass outputs with model passes; execution oracle",
+        design_ref="§6 C05, §10"),
+    "C06": dict(
+        level="proof",
+        text="Over the C01 heap model: a raising op returns the input heap itself, hence every observation is unchanged "
+             "(C06_raise_frame_partial for current-model histories avoiding the open sites, C06_raise_frame_fixed_partial "
+             "for the repaired model; multi-element ops validate the whole argument first so a failure at any position k is "
+             "covered; 'partial': Graph(...) with arguments is out of scope). Open sites refuted with witnesses replayed on "
+             "the implementation (known findings: Graph(...) rejected midway, the two non-transactional convenience "
+             "functions). Tie: as C01, with a malformed stream placing the offending element at every position; the oracle "
+             "deep-snapshots all reachable objects before each op and compares after a raising op.",
+        note=TRUST + "Same trusted base as C01.",
+        technique="Coq frame theorem over the C01 heap model; per-step vm_compute correspondence; snapshot oracle",
+        design_ref="§6 C06, §10"),
+    "C09": dict(
+        level="proof",
+        text="Nine theorems, none partial, for every configuration and every schedule of an executable labelled transition "
+             "system of the parallel writer (single-file, serial inner writers, sharded two-level driver sharing one budget, "
+             "lock table and outer callback lock; explicit condition-variable wait set): budget invariant and memory bound, "
+             "callback mutual exclusion and exactly-once, per-tensor-object mutual exclusion, no lost wake-up, error path "
+             "(exception delivered only after all workers stopped with the budget released), termination with an explicit "
+             "bound, deadlock freedom, files equal to the serial writer's. The guard/update expressions of _ByteBudget and "
+             "_reservation_bytes are re-extracted from the source on every run. Tie: threading/concurrent.futures/_ByteBudget "
+             "rebound to a cooperative runtime where one thread runs at a time and every synchronisation call is a "
+             "scheduling point; recorded traces are checked inside Coq to be paths of the LTS with equal budget state, "
+             "outcome, callback order and files (exhaustive DFS on small configs, random/PCT beyond, real-thread soak).",
+        note=TRUST + "Modelled, not verified: the GIL, Lock/Condition/ThreadPoolExecutor contracts (they are the LTS rules), OS "
+             "semantics of several r+b writers on disjoint ranges, callback=None paths.",
+        technique="Coq proof over LTS model (invariants by induction over schedules); cooperative-scheduler trace acceptance in Coq",
+        design_ref="§6 C09, §10"),
+    "C10": dict(
+        level="proof",
+        text="Eleven theorems, none partial, for any file-system tree (directories, files, arbitrary symlinks incl. loops, hard "
+             "links), any cwd, base and location strings and any history: os.path.realpath (modelled after CPython) agrees "
+             "with kernel resolution whenever open() succeeds; the string test startswith(base+sep) equals component-wise "
+             "prefix (prefix-sibling case); if the three-layer check passes and the open succeeds, the file read lies inside "
+             "the resolved base, is regular and singly linked; every entry point opens at most once and only after a passing "
+             "check, nothing is read when the check raises; load() gives every tensor (graph and model-local functions) a "
+             "non-empty base that resolves to the model's directory for every spelling. Tie: generated worlds materialised "
+             "on disk and snapshotted into Coq terms; real ExternalTensor histories, os.path functions, stat/lstat and ir.load "
+             "spellings compared inside Coq; canary files make escapes visible to the oracle.",
+        note=TRUST + "Modelled, not verified: TOCTOU between check and open, non-POSIX normcase, the kernel's 40-link rule "
+             "(nesting bound), permissions, FIFOs/devices, non-ASCII names, mmap.",
+        technique="Coq proof over path/FS model (realpath vs resolution, prefix lemma, check-before-read); on-disk world correspondence",
+        design_ref="§6 C10, §10"),
+    "C02": dict(
+        level="proof",
+        text="Gallina datatypes mirroring onnx.proto with explicit presence, deser/ser written after serde.py, and the documented "
+             "normalisation norm. C02_roundtrip (= C02_model_roundtrip) is a closed theorem: forall p, wf_model p -> exists q, "
+             "ser (deser p) = Ok q /\\ norm q = norm p, proved by induction on nesting depth through the stage theorems: dims and "
+             "denotations, arbitrarily nested types, tensor fields (proto-backed, external, string; initializer rename), "
+             "value-info, metadata on every carrier, attributes of all kinds incl. reference attributes, node scoping, "
+             "graph stage (name tables after each phase of _deserialize_graph, initializer-for-an-input, outputs declared "
+             "before nodes are read, value-info application/emission/completion, quantization annotations exactly once, "
+             "pass-through inputs, trailing outputs), function stage (overloads, attribute parameters, IR-10 value_info incl. "
+             "function inputs), model stage; fuel proved sufficient. IR-version gates and enum members are regenerated from "
+             "serde.py/_enums.py on every run. Tie: a proto->Coq-term converter; the implementation's "
+             "to_proto(from_proto(p)) is compared inside Coq with the model's output and with p after norm on generated "
+             "protos covering the quantifier's feature list + unsupported-construct mutations; stricter norm-aware Python "
+             "diff oracle.",
+        note=TRUST + "Modelled, not verified: protobuf presence/CopyFrom, tensor payload decoding (C04). wf excludes sparse "
+             "attributes, map types and external_data keys other than location/offset/length (known finding).",
+        technique="Coq proof of the proto->IR->proto round trip over a field-level proto model; vm_compute correspondence with serde",
+        design_ref="§6 C02, §10"),
+    "C03": dict(
         level="translation_validation",
         text="Proved in Coq for all IR states: serialization is read-only except aligning an initializer tensor's name with its "
              "value (C03_ser_readonly), a second to_proto on the state the first left returns the same proto "
